@@ -340,7 +340,7 @@ VMLoop:
 			if bp == 0 {
 				bp = vm.curFrame.fn.NumLocals + 1
 			}
-			if numRet == 1 {
+			if numRet == 1 && !vm.curFrame.discardReturn {
 				vm.stack[bp-1] = vm.stack[vm.sp-1]
 			} else {
 				vm.stack[bp-1] = Undefined
@@ -764,6 +764,7 @@ func (vm *VM) initCurrentFrame() {
 
 	vm.curFrame.errHandlers = nil
 	vm.curFrame.basePointer = 0
+	vm.curFrame.discardReturn = false
 }
 
 func (vm *VM) clearCurrentFrame() {
@@ -1131,8 +1132,12 @@ func (vm *VM) xOpCallCompiled(cfunc *CompiledFunction, numArgs, flags int) error
 	if cfunc == vm.curFrame.fn { // recursion
 		nextOp := vm.curInsts[vm.ip+2+1]
 
-		if nextOp == OpReturn ||
-			(nextOp == OpPop && OpReturn == vm.curInsts[vm.ip+2+2]) {
+		discard := nextOp == OpPop && OpReturn == vm.curInsts[vm.ip+2+2]
+		if nextOp == OpReturn || discard {
+			if discard {
+				// value of the call is not used by the caller of this frame
+				vm.curFrame.discardReturn = true
+			}
 			curBp := vm.curFrame.basePointer
 			copy(vm.stack[curBp:curBp+numLocals], vm.stack[basePointer:])
 			newSp := vm.sp - numArgs - 1
@@ -1157,6 +1162,7 @@ func (vm *VM) xOpCallCompiled(cfunc *CompiledFunction, numArgs, flags int) error
 	frame.freeVars = cfunc.Free
 	frame.errHandlers = nil
 	frame.basePointer = basePointer
+	frame.discardReturn = false
 
 	vm.curFrame.ip = vm.ip + 2
 	vm.curInsts = cfunc.Instructions
@@ -1497,6 +1503,9 @@ type frame struct {
 	ip          int
 	basePointer int
 	errHandlers *errHandlers
+	// discardReturn is set when the frame is reused by a tail call whose value
+	// is discarded by the caller, so the frame must return undefined.
+	discardReturn bool
 }
 
 func getFrameSourcePos(frame *frame) parser.Pos {
